@@ -178,12 +178,11 @@ func FuzzC01RoundTrip(f *testing.F) {
 			ops = append(ops, gen.Op{K: "F"})
 		}
 		ops = append(ops, gen.Op{K: "W", N: n - c1})
-		z, err := runWriterOps(set, data, ops)
-		if err == nil {
-			_, err = checkCompleteStream(z, data, nil)
-		}
-		if err != nil {
-			fuzzFail(t, "C01", map[string]any{"set": set, "ops": ops, "data_hex": hexPrefix(data, 4096)}, err)
+		c := C01Case{Data: gen.Recipe{Segs: []gen.Seg{{Kind: "raw", N: len(data), Raw: data}}}, Set: set, Ops: ops}
+		done := begin("C01", c)
+		defer done()
+		if _, _, err := checkC01(c); err != nil {
+			fuzzFail(t, "C01", c, err)
 		}
 	})
 }
